@@ -210,7 +210,7 @@ func runC10(r *vf.Run) {
 	if r.Thorough() && r.Violations() == 0 && !r.Replay() {
 		r.Extra("exhaustive_parts", "all trees of depth<=2/arity<=2 over 4 leaves and depth<=3/arity<=2 over 2 leaves")
 	}
-	n := r.Pick(30000, 400000)
+	n := r.Pick(30000, 3000000)
 	var ids []string
 	const chunk = 2000
 	for i := 0; i < n; i += chunk {
